@@ -228,7 +228,13 @@ func c17Trial(c *Ctx) {
 		W := numTensor(r, ref.F32, []int{k, n})
 		var req mon.OpReq
 		mask := uint64(2)
-		switch r.Intn(5) {
+		switch r.Intn(7) {
+		case 5: // a stack of 1x1 products: (b,1,k) x (k)
+			wv := numTensor(r, ref.F32, []int{k})
+			req = mon.OpReq{Op: "MatMul", Inputs: []*ref.T{numTensor(r, ref.F32, []int{r.Range(2, 9), 1, k}), wv}}
+		case 6: // (k) x (b,k,1), the vector is the shared weight
+			wv := numTensor(r, ref.F32, []int{k})
+			req, mask = mon.OpReq{Op: "MatMul", Inputs: []*ref.T{wv, numTensor(r, ref.F32, []int{r.Range(2, 9), k, 1})}}, 1
 		case 0:
 			req = mon.OpReq{Op: "MatMul", Inputs: []*ref.T{numTensor(r, ref.F32, []int{k}), W}}
 		case 1:
